@@ -26,7 +26,7 @@ pub struct Connectors;
 
 fn bigram_case() -> BoxedStrategy<BigramCase> {
     (
-        prop_oneof![3 => Just(Regime::Small), 1 => Just(Regime::Tiny), 2 => Just(Regime::Large)],
+        prop_oneof![3 => Just(Regime::Small), 1 => Just(Regime::Tiny), 2 => Just(Regime::Large), 1 => Just(Regime::Boundary)],
     )
         .prop_flat_map(|(regime,)| {
             (
@@ -69,6 +69,7 @@ fn bigram_case() -> BoxedStrategy<BigramCase> {
                 spec,
                 sentences,
                 large: regime == Regime::Large,
+                // (the boundary regime is compared by tokenization only when every pair is exact, see `fits`)
             }
         })
         .boxed()
@@ -113,7 +114,7 @@ impl Sub for Connectors {
     fn rule(&self) -> String {
         "BigramModel: K ∈ 1..=20 template positions (1-7, 8, 9-16, >16), ragged rows, feature strings shared across positions, quoted cells, '*' cells, empty cells, \
          features never listed in bigram.cost, BOS/EOS lines ''/x and x/'', zero and negative costs, cost regimes tiny/small/large; oracle: for EVERY id pair raw cost == Σ_p table[(right feature_p, left feature_p)] \
-         (naive reference), dual cost == the same whenever Σ_p|c_p| ≤ 32767, sizes agree; in the small regimes the same lexicon compiled with raw, dual and a matrix.def materialised from the reference sums \
+         (naive reference), dual cost == the same whenever every partial sum fits i16 (Σ negative contributions ≥ −32768 and Σ positive ones ≤ 32767), sizes agree; a boundary regime draws costs from {±32767, −32768, ±16384, ±1, …}; in the small regimes the same lexicon compiled with raw, dual and a matrix.def materialised from the reference sums \
          tokenizes identically; non-trivial = a feature string shared by ≥2 positions or ragged rows or K≠8, and an id pair with ≥2 non-zero contributing positions; distinct = hash(bigram files)".into()
     }
     fn check(&self, case: &BigramCase, ctx: &mut Ctx) -> Result<(), String> {
@@ -140,7 +141,7 @@ impl Sub for Connectors {
                 if got != want {
                     return Err(format!("raw connector: cost(right {r}, left {l}) = {got}, defining sum = {want} (K={k})"));
                 }
-                if rc.abs_sum[r][l] <= 32767 {
+                if rc.fits16[r][l] {
                     let gd = i64::from(cdual[r * nl + l]);
                     if gd != want {
                         return Err(format!("dual connector: cost(right {r}, left {l}) = {gd}, defining sum = {want} (K={k})"));
@@ -152,7 +153,7 @@ impl Sub for Connectors {
             }
         }
         // tokenization equality (small regimes: the sums fit matrix.def's i16)
-        let fits = rc.cost.iter().flatten().all(|&c| i64::from(i16::MIN) <= c && c <= i64::from(i16::MAX));
+        let fits = rc.cost.iter().flatten().all(|&c| i64::from(i16::MIN) <= c && c <= i64::from(i16::MAX)) && rc.fits16.iter().flatten().all(|&b| b);
         if !case.large && fits {
             let md = rc.to_matrix_def();
             let mat = build_with(&case.spec, None, Some(&md))?;
@@ -501,7 +502,7 @@ impl Sub for WideConnectors {
     fn rule(&self) -> String {
         "compact cases expanded deterministically: K ∈ 1..33 templates, 1..300 right and left ids (around 256 too), 2..400 distinct feature strings per position and side (plus strings shared between positions \
          and sides, '*' cells, ragged rows), 0..6000 bigram.cost lines drawn from occurring features or from the whole vocabulary, BOS/EOS lines, |cost| ≤ 1000 or ≤ 10^5; oracle: as 'connectors' — raw cost == defining sum \
-         for EVERY id pair incl. id 0, dual cost == the same wherever Σ|c| ≤ 32767, sizes agree; non-trivial = ≥ 256 ids on a side or ≥ 1000 cost lines or K > 16; distinct = hash(case)".into()
+         for EVERY id pair incl. id 0, dual cost == the same wherever every partial sum fits i16, sizes agree; non-trivial = ≥ 256 ids on a side or ≥ 1000 cost lines or K > 16; distinct = hash(case)".into()
     }
     fn check(&self, case: &WideModelCase, ctx: &mut Ctx) -> Result<(), String> {
         let model = case.model();
@@ -532,7 +533,7 @@ impl Sub for WideConnectors {
                 if got != want {
                     return Err(format!("raw connector: cost(right {r}, left {l}) = {got}, defining sum = {want} (K={})", model.k()));
                 }
-                if rc.abs_sum[r][l] <= 32767 {
+                if rc.fits16[r][l] {
                     let gd = i64::from(cdual[r * nl + l]);
                     if gd != want {
                         return Err(format!("dual connector: cost(right {r}, left {l}) = {gd}, defining sum = {want} (K={})", model.k()));
@@ -609,7 +610,7 @@ pub fn xbuild_emit(dir: &Path, seed: u64, n: u32) -> Result<(), String> {
         let (right, left, cost) = m.render();
         let rc = RefConn::from_bigram(&m);
         let x = XModel {
-            dual_exact: rc.abs_sum.iter().flatten().map(|&a| a <= 32767).collect(),
+            dual_exact: rc.fits16.iter().flatten().copied().collect(),
             raw: costs_of(&right, &left, &cost, false)?,
             dual: costs_of(&right, &left, &cost, true)?,
             k: m.k(),
@@ -668,7 +669,7 @@ pub fn run(opts: &Opts) -> Report {
     rep.assumptions = vec![
         "a feature literally named '*' never appears as a name in bigram.cost (a dropped feature and a real '*' feature would be indistinguishable)".into(),
         "duplicate (right, left) lines in bigram.cost are not generated (which one counts is unspecified)".into(),
-        "dual == defining sum is asserted only where Σ_p|c_p| ≤ 32767 (the pre-summed part cannot have been clamped)".into(),
+        "dual == defining sum is asserted only where the negative contributions sum to ≥ −32768 and the positive ones to ≤ 32767 (whatever subset is pre-summed, it fits 16 bits and cannot have been clamped)".into(),
     ];
     let a = Connectors;
     let s = ScorerLookups;
